@@ -112,7 +112,8 @@ Record leaf := { l_uid : nat;       (* the bound object *)
                  l_kind : lkind;
                  l_stor : nat;      (* its storage (tensors): in-place writes change the store, not the leaf *)
                  l_payload : Z;     (* content of a non-tensor object (immutable object: a new payload is a new object) *)
-                 l_dtype : nat; l_numel : nat; l_esize : nat }.
+                 l_dtype : nat; l_numel : nat; l_esize : nat;
+                 l_mm : bool }.     (* a MemoryMappedTensor: memmap_() keeps it as it is *)
 
 Record nmeta := { m_bs : list nat; m_names : option (list string); m_dev : nat }.
 
@@ -307,7 +308,49 @@ Definition lazy_common_keys (s : state) (p : path) : list string :=
   | m0 :: ms => filter (fun k => forallb (fun m => str_mem k (top_keys s (n_path m))) ms) (top_keys s (n_path m0))
   end.
 
-(* the result of running method [m] of node [p] afresh in state [s] *)
+(* ---- results computed FROM another memoised result (the callee's list), as the method bodies do *)
+Definition item_uid (i : item) : option nat := match i with ILeaf l => Some (l_uid l) | INode u => Some u | _ => None end.
+Fixpoint dedup_items (seen : list nat) (l : list (path * item)) : list (path * item) :=
+  match l with
+  | [] => []
+  | ri :: r => match item_uid (snd ri) with
+               | Some u => if nat_mem u seen then dedup_items seen r else ri :: dedup_items (u :: seen) r
+               | None => ri :: dedup_items seen r
+               end
+  end.
+Definition item_numel (i : item) : nat :=
+  match i with ILeaf l => l_numel l | IShare _ _ _ _ nu => nu | ICopy _ _ _ nu => nu | INode _ => 0 end.
+Definition item_bytes (i : item) : nat := match i with ILeaf l => l_numel l * l_esize l | _ => 0 end.
+(* base.py:4593 bytes / :4574 param_count over self._values_list(True, True) *)
+Definition bytes_of (count_dup : bool) (l : list (path * item)) : nat :=
+  fold_right Nat.add 0 (map (fun ri => item_bytes (snd ri)) (if count_dup then l else dedup_items [] l)).
+Definition count_of (count_dup : bool) (l : list (path * item)) : nat :=
+  fold_right Nat.add 0 (map (fun ri => item_numel (snd ri)) (if count_dup then l else dedup_items [] l)).
+
+Definition key_path (a : arg) : option path :=
+  match a with
+  | AStr k => Some [k]
+  | ASeq l => (fix go (l : list arg) : option path :=
+                 match l with [] => Some [] | AStr k :: r => option_map (cons k) (go r) | _ => None end) l
+  | _ => None
+  end.
+(* base.py:7353: source = dict(zip(keys, vals)); [source[key] for key in sorting_keys] — KeyError when a key is missing *)
+Fixpoint reorder (keys : list arg) (l : list (path * item)) : option (list (path * item)) :=
+  match keys with
+  | [] => Some []
+  | k :: r => match key_path k with
+              | None => None
+              | Some q => match find (fun ri => path_eqb (fst ri) q) l, reorder r l with
+                          | Some ri, Some rest => Some (ri :: rest) | _, _ => None end
+              end
+  end.
+Definition reorder_val (sk : arg) (sub : cval) : cval :=
+  match sk, sub with
+  | ASeq keys, VList l => match reorder keys l with Some r => VList r | None => VRaise end
+  | _, _ => VRaise
+  end.
+
+(* the result of running method [m] of node [p] afresh (from the tensordict itself, no memoised callee) in state [s] *)
 Definition fresh (s : state) (n : node) (m : meth) (args : list arg) (kwargs : list (string * arg)) : cval :=
   let p := n_path n in
   match bind (fst (signature m)) (snd (signature m)) args kwargs with
@@ -320,7 +363,11 @@ Definition fresh (s : state) (n : node) (m : meth) (args : list arg) (kwargs : l
     | MValuesList | MItemsList =>
         (* base.py:7335/7367: is_leaf is honoured only with collapse=True; otherwise _NESTED_TENSORS_AS_LISTS *)
         let mask := if truthy (par env "collapse") then mask_of (par env "is_leaf") mask_default else mask_default in
-        VList (values_of s p (truthy (par env "include_nested")) (truthy (par env "leaves_only")) mask (truthy (par env "collapse")))
+        let all := VList (values_of s p (truthy (par env "include_nested")) (truthy (par env "leaves_only")) mask (truthy (par env "collapse"))) in
+        match par env "sorting_keys" with
+        | ANone => all
+        | sk => reorder_val sk all
+        end
     | MSortedKeys => VKeys (top_keys s p)
     | MFlattenKeys =>
         if truthy (par env "inplace") then VRaise    (* blocked under lock; not a read *)
@@ -337,14 +384,8 @@ Definition fresh (s : state) (n : node) (m : meth) (args : list arg) (kwargs : l
     | MDtype => VOptNat (common_dtype (filter (fun rl => leaf_ok mask_default (snd rl)) (leaves_under s p)))
     | MDepth => VNat (fold_right Nat.max 0 (map (fun rl => Nat.pred (List.length (fst rl)))
                                               (filter (fun rl => leaf_ok mask_nontensor (snd rl)) (leaves_under s p))))
-    | MBytes =>
-        let ls := filter (fun rl => leaf_ok mask_default (snd rl)) (leaves_under s p) in
-        let ls := if truthy (par env "count_duplicates") then ls else dedup_leaves [] ls in
-        VNat (fold_right Nat.add 0 (map (fun rl => l_numel (snd rl) * l_esize (snd rl)) ls))
-    | MParamCount =>
-        let ls := filter (fun rl => leaf_ok mask_default (snd rl)) (leaves_under s p) in
-        let ls := if truthy (par env "count_duplicates") then ls else dedup_leaves [] ls in
-        VNat (fold_right Nat.add 0 (map (fun rl => l_numel (snd rl)) ls))
+    | MBytes => VNat (bytes_of (truthy (par env "count_duplicates")) (values_of s p true true mask_default false))
+    | MParamCount => VNat (count_of (truthy (par env "count_duplicates")) (values_of s p true true mask_default false))
     | MLazyNames =>
         (* _lazy.py:462: the members' names with the stack-dim name inserted; here: the first member's names *)
         VNames (match children_nodes s p with m0 :: _ => m_names (n_meta m0) | [] => None end)
@@ -403,37 +444,77 @@ Definition with_cache (n : node) (c : list centry) : node :=
 
 Inductive access := Hit | Miss | Bypass.     (* Bypass: not locked — the cache is neither read nor written *)
 
-(* utils.py:932 newfun, one call (sub-calls are issued by [read] below) *)
-Definition cached_call (s : state) (p : path) (m : meth) (args : list arg) (kwargs : list (string * arg))
-  : state * option (access * cval * cval) :=
+(* what the method body returns when its memoised callees returned [subvals] (in the order of [subcalls]) *)
+Definition body (s : state) (n : node) (m : meth) (args : list arg) (kwargs : list (string * arg)) (subvals : list cval) : cval :=
+  match bind (fst (signature m)) (snd (signature m)) args kwargs with
+  | None => VRaise
+  | Some env =>
+      match m, subvals with
+      | MBytes, [VList l] => VNat (bytes_of (truthy (par env "count_duplicates")) l)
+      | MParamCount, [VList l] => VNat (count_of (truthy (par env "count_duplicates")) l)
+      | MBytes, _ | MParamCount, _ => VRaise
+      | MValuesList, [sub] => reorder_val (par env "sorting_keys") sub
+      | _, _ => fresh s n m args kwargs
+      end
+  end.
+
+(* utils.py:932 newfun: the decorator around a body whose value [v] is already known *)
+Definition decorate (s : state) (p : path) (m : meth) (args : list arg) (kwargs : list (string * arg)) (v : cval)
+  : state * option (access * cval) :=
   match find_node s p with
   | None => (s, None)
   | Some n =>
-      let fr := fresh s n m args kwargs in
-      if negb (node_locked s n) then (s, Some (Bypass, fr, fr))
+      if negb (node_locked s n) then (s, Some (Bypass, v))
       else
         let k := make_cache_key args kwargs in
         match cache_lookup (n_cache n) m k with
-        | Some e => (s, Some (Hit, e_val e, fr))
+        | Some e => (s, Some (Hit, e_val e))
         | None =>
-            if is_tensor_result fr || is_raise fr then (s, Some (Miss, fr, fr))
-            else (set_node s (with_cache n ({| e_meth := m; e_key := k; e_val := fr; e_args := args; e_kwargs := kwargs |} :: n_cache n)),
-                  Some (Miss, fr, fr))
+            if is_tensor_result v || is_raise v then (s, Some (Miss, v))          (* "we don't cache tensors" *)
+            else (set_node s (with_cache n ({| e_meth := m; e_key := k; e_val := v; e_args := args; e_kwargs := kwargs |} :: n_cache n)),
+                  Some (Miss, v))
         end
   end.
 
-(* a read: when the method body runs (miss, not locked, or — with the verification hook on — also on a hit, because the hook
-   recomputes) its memoised sub-calls on the same node are issued too *)
+(* a memoised callee without callees of its own *)
+Definition call0 (s : state) (p : path) (m : meth) (args : list arg) (kwargs : list (string * arg)) : state * cval :=
+  match find_node s p with
+  | None => (s, VRaise)
+  | Some n => match decorate s p m args kwargs (fresh s n m args kwargs) with
+              | (s', Some (_, v)) => (s', v)
+              | (s', None) => (s', VRaise)
+              end
+  end.
+
+Definition run_subcalls (s : state) (p : path) (cs : list (meth * list arg * list (string * arg))) : state * list cval :=
+  fold_left (fun acc c => let r := call0 (fst acc) p (fst (fst c)) (snd (fst c)) (snd c) in (fst r, snd acc ++ [snd r])) cs (s, []).
+
+(* one public read.  The body runs on a miss, when the node is not locked, and — with the verification hook on — also on
+   a hit (the hook recomputes); its memoised callees on the same node are issued then.
+   Result: (access, value returned to the caller, value of the body if it ran). *)
 Definition read (hooked : bool) (s : state) (p : path) (m : meth) (args : list arg) (kwargs : list (string * arg))
-  : state * option (access * cval * cval) :=
+  : state * option (access * cval * option cval) :=
   match find_node s p with
   | None => (s, None)
   | Some n =>
       let env := match bind (fst (signature m)) (snd (signature m)) args kwargs with Some e => e | None => [] end in
       let hit := node_locked s n && match cache_lookup (n_cache n) m (make_cache_key args kwargs) with Some _ => true | None => false end in
-      let s1 := if hit && negb hooked then s
-                else fold_left (fun st c => fst (cached_call st p (fst (fst c)) (snd (fst c)) (snd c))) (subcalls m env) s in
-      cached_call s1 p m args kwargs
+      if hit && negb hooked
+      then match decorate s p m args kwargs VRaise with          (* a hit never looks at the body value *)
+           | (s', Some (a, v)) => (s', Some (a, v, None))
+           | (s', None) => (s', None)
+           end
+      else
+        let sv := run_subcalls s p (subcalls m env) in
+        match find_node (fst sv) p with
+        | None => (fst sv, None)
+        | Some n1 =>
+            let v := body (fst sv) n1 m args kwargs (snd sv) in
+            match decorate (fst sv) p m args kwargs v with
+            | (s', Some (a, r)) => (s', Some (a, r, Some v))
+            | (s', None) => (s', None)
+            end
+        end
   end.
 
 (* ------------------------------------------------------------------------------------------------ locking *)
@@ -578,10 +659,11 @@ Definition step (fx : fixes) (hooked : bool) (s : state) (o : op) : state * outc
       match find_leaf s p, find_node s (parent_of p) with
       | Some old, Some n =>
           match l_kind old with
-          | KNonTensorData =>
+          | KTensor => (s, RaisedOther)
+          | k =>
               if n_memmap n then (s, RaisedOther)                                     (* _SHARED_INPLACE_ERROR *)
+              else if lkind_eqb k KNonTensorStack && node_locked s n then (s, RaisedLock)   (* dest_val[idx] = value on the locked stack *)
               else let s1 := set_leaf s p l in ((if fix_rebind fx then erase_around s1 (parent_of p) else s1), Done)
-          | _ => (s, RaisedOther)
           end
       | _, _ => (s, NoSuchTarget)
       end
@@ -600,12 +682,12 @@ Definition step (fx : fixes) (hooked : bool) (s : state) (o : op) : state * outc
           let s1 := {| nodes := map (fun n => if is_prefix p (n_path n)
                                               then with_lock n (match n_kind n with NTD => Some true | NLAZY => n_flag n end) (n_parents n) true (n_cache n)
                                               else n) (nodes s);
-                       leaves := map (fun ql => if is_prefix p (fst ql) && lkind_eqb (l_kind (snd ql)) KTensor
+                       leaves := map (fun ql => if is_prefix p (fst ql) && lkind_eqb (l_kind (snd ql)) KTensor && negb (l_mm (snd ql))
                                                 then (fst ql, {| l_uid := base + l_uid (snd ql); l_kind := KTensor; l_stor := base + l_stor (snd ql);
                                                                  l_payload := l_payload (snd ql); l_dtype := l_dtype (snd ql);
-                                                                 l_numel := l_numel (snd ql); l_esize := l_esize (snd ql) |})
+                                                                 l_numel := l_numel (snd ql); l_esize := l_esize (snd ql); l_mm := true |})
                                                 else ql) (leaves s);
-                       store := flat_map (fun ql => if is_prefix p (fst ql) && lkind_eqb (l_kind (snd ql)) KTensor
+                       store := flat_map (fun ql => if is_prefix p (fst ql) && lkind_eqb (l_kind (snd ql)) KTensor && negb (l_mm (snd ql))
                                                     then [(base + l_stor (snd ql), store_get (store s) (l_stor (snd ql)))] else []) (leaves s)
                                 ++ store s |} in
           let s2 := upd_nodes s1 (fun n => if is_prefix p (n_path n) then with_meta n {| m_bs := m_bs (n_meta n); m_names := m_names (n_meta n); m_dev := 1 |} else n) in
@@ -632,7 +714,11 @@ Definition step (fx : fixes) (hooked : bool) (s : state) (o : op) : state * outc
           | NLAZY => (s, RaisedOther)
           | NTD =>
               let s1 := upd_nodes s (fun x => if path_eqb (n_path x) p
-                                              then with_meta x {| m_bs := bs; m_names := None; m_dev := m_dev (n_meta x) |} else x) in
+                                              then with_meta x {| m_bs := bs;
+                                                                  m_names := match m_names (n_meta x), bs with
+                                                                             | Some l, _ :: _ => Some (firstn (List.length bs) l)
+                                                                             | _, _ => None end;
+                                                                  m_dev := m_dev (n_meta x) |} else x) in
               ((if fix_meta fx then erase_around s1 p else s1), Done)
           end
       end
